@@ -37,6 +37,8 @@ MANIFEST = dict(
     design="6 C10",
     engines=[dict(name="E-sem", path="harness/src/eng_sem.rs + coq/extract/eng_sem.ml",
                   kind_free_text="differential: ProjectManager::generate_goto_definitions / generate_completion_proposals on a rendered temp workspace (positional queries) vs the extracted Coq scoping model (abstract queries); answers = ordered (target stem, selection range) lists / sorted label lists"),
+             dict(name="E-deftree", path="harness/src/eng_deftree.rs + coq/extract/eng_deftree.ml",
+                  kind_free_text="two-phase differential: real lexer+parser+ProjectManager (one-file temp workspace) go-to-definition and completion at the start / middle / end of every identifier token vs the extracted DefTree.definition / DefTree.completion on the dumped tree; parts needing another document are classified Outside by the model and skipped (counted); C10_tree_* / C11_tree_* tie these answers to the abstract model on entity_of_tree"),
              dict(name="E-annot", path="harness/src/eng_annot.rs + coq/extract/eng_annot.ml",
                   kind_free_text="two-phase differential: real lexer+parser+AstAnnotator (full and definitions-only mode; root table and every method node's table: for_class_or_module, symbols in iter_symbols order with id / SymbolType / selection_range / range, uses) vs the extracted Coq model Annot.annotate on the dumped tree; C10_tables_from_tree* tie these tables to Scoping.root_table / method_table")],
 )
@@ -82,6 +84,7 @@ def correspondence(ctx, broken_obligations=()):
     cov.update(meta)
     cov.update(S.recase_stage(ctx, PID, KINDS))
     cov["annot"] = annot_stage(ctx)
+    cov["deftree"] = deftree_stage(ctx)
     return cov
 
 
@@ -478,4 +481,186 @@ def annot_stage(ctx):
                    "headers after methods), the .god files of /repo/test and /repo/test/workspace, and mutated variants "
                    "(duplicated / re-cased / moved / deleted lines, dropped types, #Event names, character edits, truncation)")
     cov["samples"] = [annot_describe(cases[len(A_FIXED) + 25])[:400], annot_describe(cases[-1])[:400]]
+    return cov
+
+
+# =============================================================================================
+# tree-level tie of the ANSWERS (one document): Model/DefTree.v, Proofs/DefTreeProofs.v, C10_tree_* / C11_tree_*
+# engine `deftree` (two-phase): text -> real lexer+parser -> tree dump + every identifier position ->
+# real ProjectManager (one-file temp workspace) go-to-definition + completion at every position
+# vs the extracted DefTree.definition / DefTree.completion on the dumped tree
+# =============================================================================================
+def dt_strip_foreign(text):
+    """the same document without a parent class and without `uses` lines"""
+    import re
+    out = []
+    for l in text.split("\n"):
+        if re.match(r"^\s*uses\b", l, re.I):
+            continue
+        l = re.sub(r"^(\s*class\s+\w+)\s*\([^)]*\)", r"\1", l, flags=re.I)
+        out.append(l)
+    return "\n".join(out)
+
+
+def dt_cases(ctx):
+    rng = random.Random(ctx.seed * 104729 + 11)
+    hist = {}
+    cases = []
+
+    def add(kind, t):
+        cases.append(a_cps(t) + "@" + kind)
+        hist[kind] = hist.get(kind, 0) + 1
+
+    scale = 1 if ctx.quick else 10
+    for t in A_FIXED + DT_FIXED:
+        add("fixed", t)
+    ag = AGen(rng)
+    g = goldgen.Gen(rng)
+    base = []
+    for _ in range(260 * scale):
+        t = ag.program()
+        base.append(t)
+        add("own" if dt_strip_foreign(t) == t else "with_parent_or_uses", t)
+        if dt_strip_foreign(t) != t:
+            add("own", dt_strip_foreign(t))
+    for _ in range(60 * scale):
+        t = g.gen_program()[0]
+        base.append(t)
+        add("goldgen", t)
+    files = sorted(glob.glob("/repo/test/*.god") + glob.glob("/repo/test/workspace/*.god"))
+    for f in files:
+        t = open(f, "rb").read().decode("utf-8", errors="replace")
+        if len(t) < 6000:
+            add("repo_test_file", t)
+    for _ in range(120 * scale):
+        add("mutated", a_mutate(rng, rng.choice(base)))
+    return cases, hist
+
+
+DT_FIXED = [
+    "class aFoo\nconst cA = 1\ntype tRef : refTo aFoo\nfa : int4\nproc Run(p : int4, Fa : tRef)\n var l : int4\n l = p + fa + cA\n self.fa = Fa\n self.Run(l)\n zz = 1\nendproc\nfunc G(q : int4) return tRef\n return self.fa\nendfunc\n",
+    "module aMod\nconst cA = 1\nfa : int4\nfunc F(fa : int4) return int4\n var CA : int4\n return fa + ca + aMod.fa + aMod.F(1)\nendfunc\n",
+    "class aFoo\nfa : int4\nproc Run(x : int4)\n var x : int4\n var X : cstring\n x = fa\n if x > 0\n  var fa : int4\n  fa = x\n endif\n self.\n x.\nendproc\n",
+    "class aFoo\nproc A\n self.B\n B\nendproc\nproc B\n self.A\nendproc\nproc b\nendproc\n",
+]
+
+
+def dt_split(out):
+    # the model receives the whole line (it echoes the implementation's answer, marked '?', where its outcome is Outside)
+    return (out, out.split("#", 1)[1]) if "#" in out else (out, out)
+
+
+def dt_canon(x):
+    return x.replace("?", "")
+
+
+def dt_parse(case, obs_head=None):
+    return a_text(case)
+
+
+def dt_ident_at(lines, l, c):
+    """the identifier (maximal [A-Za-z0-9_] run) touching position (l, c)"""
+    if l >= len(lines):
+        return ""
+    s = lines[l]
+    ok = lambda ch: ch.isalnum() or ch == "_"
+    a = c
+    while a > 0 and ok(s[a - 1]):
+        a -= 1
+    b = c
+    while b < len(s) and ok(s[b]):
+        b += 1
+    return s[a:b]
+
+
+DT_POS = {}
+
+
+def dt_oracle(case, obs):
+    """on the implementation's answers alone: every definition link's selection range, sliced from the text, is the
+       identifier under the cursor ignoring case (for `self`: anything the class is called); completion labels are
+       pairwise distinct ignoring case; nothing panics or errs"""
+    if obs == "" or obs.startswith("X"):
+        return None
+    if obs.startswith("PANIC") or obs == "CRASH":
+        return "the request did not return: %s" % obs[:100]
+    poss = DT_POS.get(case)
+    lines = a_text(case).split("\n")
+    answers = obs.split(";") if obs else []
+    for k, a in enumerate(answers):
+        if "PANIC" in a or "ERR" in a:
+            return "answer %d: %s" % (k, a[:80])
+        d, c = a[1:].split("C", 1)
+        if c not in ("-", ""):
+            labs = ["".join(chr(int(x)) for x in lab.split(".")) if lab != "~" else "" for lab in c.split(",")]
+            up = [x.upper() for x in labs]
+            if len(set(up)) != len(up):
+                return "answer %d: completion labels not distinct ignoring case: %r" % (k, labs)
+        if d not in ("-", "") and poss is not None and k < len(poss):
+            l, col = poss[k]
+            ident = dt_ident_at(lines, l, col)
+            for lk in d.split(","):
+                if "!" in lk:
+                    return "answer %d: link into another file %s" % (k, lk)
+                sel = [int(x) for x in lk.split("/")[0].split(":")]
+                if sel[0] != sel[2] or sel[0] >= len(lines):
+                    return "answer %d: selection range %r not on one existing line" % (k, sel)
+                got = lines[sel[0]][sel[1]:sel[3]]
+                if "#" in got:
+                    got = "".join(got.split())
+                if got.upper() != ident.upper() and ident.upper() != "SELF":
+                    # the one systematic exception of the code: a cursor on an OPTION of `refTo [P,A] aType` is answered
+                    # with the declaration of aType (the encasing node is the type reference)
+                    if not dt_in_brackets(lines, l, col):
+                        return "answer %d at %d:%d on %r: the link selects %r" % (k, l, col, ident, got)
+    return None
+
+
+def dt_in_brackets(lines, l, c):
+    s = lines[l] if l < len(lines) else ""
+    a = s.rfind("[", 0, c + 1)
+    return a >= 0 and "]" not in s[a:c]
+
+
+def deftree_stage(ctx):
+    cases, hist = dt_cases(ctx)
+    hb = diff.Engines.harness()
+    raw = core.run_lines(hb, "deftree", cases)
+    DT_POS.clear()
+    npos = 0
+    for c, o in zip(cases, raw):
+        if "#" in o and not o.startswith("X"):
+            head = o.split("#", 1)[0].split("@")
+            ps = [tuple(int(x) for x in p.split(":")) for p in head[2].split(",")] if len(head) > 2 and head[2] else []
+            DT_POS[c] = ps
+            npos += len(ps)
+    cov = diff.differential(ctx, "deftree", cases, split=dt_split, oracle=dt_oracle, canon=dt_canon,
+                            nontrivial=lambda c: len(DT_POS.get(c, ())) >= 12, describe=annot_describe)
+    # how much the model answers itself (not Outside), per request kind and per class of document
+    mod = core.run_lines(diff.Engines.model(), "deftree", raw)
+    stats = {}
+    for c, m in zip(cases, mod):
+        kind = c.rsplit("@", 1)[1]
+        st = stats.setdefault(kind, {"definition_modelled": 0, "definition_outside": 0, "completion_modelled": 0,
+                                      "completion_outside": 0, "definition_nonempty": 0})
+        for a in (m.split(";") if m else []):
+            d, cc = a[1:].split("C", 1)
+            st["definition_outside" if d.startswith("?") else "definition_modelled"] += 1
+            st["completion_outside" if cc.startswith("?") else "completion_modelled"] += 1
+            if not d.startswith("?") and d != "-":
+                st["definition_nonempty"] += 1
+    cov["positions"] = npos
+    cov["requests"] = 2 * npos
+    cov["input_histogram"] = hist
+    cov["modelled_vs_outside"] = stats
+    cov["rule"] = ("documents of annot_stage's generators (scoping-shaped classes / modules with and without parent / uses - every "
+                   "document with a parent or uses also in its stripped form -, goldgen programs, /repo/test files, mutated "
+                   "variants, fixed corner cases); each written alone into a temp workspace as <header name>.god; positions = start, "
+                   "middle and end of EVERY identifier token of the real lexer; at each position go-to-definition and completion of "
+                   "the real ProjectManager vs DefTree.definition / DefTree.completion on the dumped tree (links = target selection "
+                   "range / target range in the order returned, labels in the order returned); parts the model classifies as "
+                   "Outside (they need another document) are skipped and counted. Oracle (implementation alone): each link's "
+                   "selection range sliced from the text is the identifier under the cursor ignoring case (`self` excepted; "
+                   "options of `refTo [..]` excepted), labels pairwise distinct ignoring case, no error, no panic")
+    cov["samples"] = [annot_describe(cases[len(A_FIXED)])[:300]]
     return cov
